@@ -22,13 +22,17 @@ pub struct Case {
   pub input: u8,
   /// piece length spelled with a unit (`16KiB`) instead of plain bytes
   pub unit: bool,
+  /// how the same request is written: bit 0 each allowed lint twice, 1 all lints after a single `--allow`, 2 lints in
+  /// descending order, 3 length with a fraction (`16383.5` is 16383), 4 unit with the Kelvin sign for `K`, 5 `--dry-run`,
+  /// 6 global `--quiet`, 7 an announce URL without a host, 8 content far larger than the piece length
+  pub style: u32,
 }
 
 impl Case {
   fn to_json(&self) -> Value {
     json!({"allow_mask": self.mask, "allow": LINTS.iter().enumerate().filter(|(i,_)| self.mask >> i & 1 == 1).map(|(_,l)| *l).collect::<Vec<_>>(),
            "piece_length": self.p.to_string(), "private": self.private, "announce": self.announce, "announce_tier_and_node": self.tier,
-           "input": (["file", "directory", "stdin"][self.input as usize % 3]), "piece_length_spelling": self.spelling()})
+           "input": (["file", "directory", "stdin"][self.input as usize % 3]), "piece_length_spelling": self.spelling(), "style_bits": self.style})
   }
   fn from_json(v: &Value) -> Option<Case> {
     Some(Case {
@@ -39,9 +43,16 @@ impl Case {
       tier: v.get("announce_tier_and_node").and_then(|b| b.as_bool()).unwrap_or(false),
       input: match v.get("input").and_then(|s| s.as_str()) { Some("directory") => 1, Some("stdin") => 2, _ => 0 },
       unit: v.get("piece_length_spelling").and_then(|s| s.as_str()).map(|s| s.ends_with('B')).unwrap_or(false),
+      style: v.get("style_bits").and_then(|s| s.as_u64()).unwrap_or(0) as u32,
     })
   }
   fn spelling(&self) -> String {
+    if self.style & 8 != 0 {
+      return format!("{}.5", self.p);
+    }
+    if self.style & 16 != 0 && self.p != 0 && self.p % 1024 == 0 {
+      return format!("{}\u{212a}iB", self.p >> 10);
+    }
     if self.unit && self.p != 0 && self.p % 1024 == 0 {
       if self.p % (1 << 20) == 0 { format!("{}MiB", self.p >> 20) } else { format!("{}KiB", self.p >> 10) }
     } else {
@@ -92,8 +103,18 @@ fn observe(ctx: &Ctx, c: &Case) -> Obs {
   }
   args.push("--piece-length".into());
   args.push(c.spelling());
-  for (i, l) in LINTS.iter().enumerate() {
-    if c.mask >> i & 1 == 1 {
+  let mut allowed: Vec<&str> = LINTS.iter().enumerate().filter(|(i, _)| c.mask >> i & 1 == 1).map(|(_, l)| *l).collect();
+  if c.style & 4 != 0 {
+    allowed.reverse();
+  }
+  if c.style & 1 != 0 {
+    allowed = allowed.iter().flat_map(|l| [*l, *l]).collect();
+  }
+  if c.style & 2 != 0 && !allowed.is_empty() {
+    args.push("--allow".into());
+    args.extend(allowed.iter().map(|l| l.to_string()));
+  } else {
+    for l in &allowed {
       args.push("--allow".into());
       args.push(l.to_string());
     }
@@ -103,10 +124,19 @@ fn observe(ctx: &Ctx, c: &Case) -> Obs {
   }
   if c.announce {
     args.push("--announce".into());
-    args.push("http://tracker.example/announce".into());
+    args.push(if c.style & 128 != 0 { "udp:bar.com".into() } else { "http://tracker.example/announce".into() });
   }
   if c.tier {
     args.extend(["--announce-tier".to_string(), "http://a.example/announce,udp://b.example:6969".into(), "--node".into(), "router.example.com:6881".into()]);
+  }
+  if c.style & 32 != 0 {
+    args.push("--dry-run".into());
+  }
+  if c.style & 64 != 0 {
+    args.insert(0, "--quiet".into());
+  }
+  if c.style & 256 != 0 && c.input == 0 {
+    sb.write("content", &vec![b'z'; 100_000]);
   }
   let mut cmd = Cmd::args_owned(&ctx.imdl, args).cwd(&sb.root);
   if c.input == 2 {
@@ -138,6 +168,10 @@ fn judge(c: &Case, o: &Obs, model_ans: &str) -> (Option<String>, Option<String>)
   } else if accept {
     if o.code != Some(0) {
       prop = Some(format!("rejected although no rule is violated-and-denied: {}", o.stderr));
+    } else if c.style & 32 != 0 {
+      if o.wrote {
+        prop = Some("--dry-run wrote a torrent".into());
+      }
     } else if o.piece_length != Some(c.p as i128) {
       prop = Some(format!("accepted but recorded piece length {:?} instead of {}", o.piece_length, c.p));
     }
@@ -151,6 +185,8 @@ fn judge(c: &Case, o: &Obs, model_ans: &str) -> (Option<String>, Option<String>)
         Some(i) if denied >> i & 1 == 1 => {}
         _ => prop = Some(format!("diagnostic names lint `{l}` which is not violated-and-denied (mask {denied})")),
       }
+    } else if c.style & 64 != 0 {
+      // --quiet: nothing is printed, the exit status alone says it failed
     } else if !o.stderr.contains("error") {
       prop = Some("rejected without an error diagnostic".into());
     }
@@ -160,7 +196,7 @@ fn judge(c: &Case, o: &Obs, model_ans: &str) -> (Option<String>, Option<String>)
   let parts: Vec<&str> = model_ans.split(' ').collect();
   match parts.as_slice() {
     ["ok", q] => {
-      if o.code != Some(0) || o.piece_length.map(|x| x.to_string()) != Some(q.to_string()) {
+      if o.code != Some(0) || (c.style & 32 == 0 && o.piece_length.map(|x| x.to_string()) != Some(q.to_string())) {
         md = Some(format!("model accepts with {q}; implementation exit {:?} piece length {:?}", o.code, o.piece_length));
       }
     }
@@ -191,7 +227,7 @@ pub fn run(ctx: &Ctx) -> Report {
     cases = rc.iter().filter_map(Case::from_json).collect();
   } else {
     let mut ps: Vec<u64> = vec![
-      0, 1, 2, 3, 1000, 8192, 16383, 16384, 16385, 24576, 32768, 65536, 65537, 1 << 20, (1 << 31) + 1,
+      0, 1, 2, 3, 1000, 8192, 16383, 16384, 16385, 24576, 32768, 49152, 65536, 65537, 1 << 20, 1 << 25, 1 << 30, (1 << 31) + 1,
       (1u64 << 32) - 1, 1 << 32, (1u64 << 32) + 1, 1 << 33, (1 << 40) + 5,
     ];
     if ctx.thorough {
@@ -200,18 +236,23 @@ pub fn run(ctx: &Ctx) -> Report {
     for mask in 0..8 {
       for &p in &ps {
         for pa in 0..4 {
-          cases.push(Case { mask, p, private: pa & 1 == 1, announce: pa & 2 == 2, tier: false, input: 0, unit: false });
+          cases.push(Case { mask, p, private: pa & 1 == 1, announce: pa & 2 == 2, tier: false, input: 0, unit: false, style: 0 });
           if [16384u64, 1000, 16385].contains(&p) {
-            cases.push(Case { mask, p, private: pa & 1 == 1, announce: pa & 2 == 2, tier: true, input: 0, unit: false });
+            cases.push(Case { mask, p, private: pa & 1 == 1, announce: pa & 2 == 2, tier: true, input: 0, unit: false, style: 0 });
           }
           // the rules do not depend on where the content comes from or on how the length is spelled
           if [0u64, 1000, 8192, 16383, 16384, 16385, 65537, 1 << 32].contains(&p) {
             for input in 1..3 {
-              cases.push(Case { mask, p, private: pa & 1 == 1, announce: pa & 2 == 2, tier: false, input, unit: false });
+              cases.push(Case { mask, p, private: pa & 1 == 1, announce: pa & 2 == 2, tier: false, input, unit: false, style: 0 });
             }
           }
+          // the same request written differently: the decision is the same
+          if [0u64, 1000, 16383, 16384, 16385, 49152, 65537].contains(&p) {
+            let bit = 1u32 << ((mask as u32 + pa as u32 * 3 + (p % 7) as u32) % 9);
+            cases.push(Case { mask, p, private: pa & 1 == 1, announce: pa & 2 == 2, tier: false, input: if bit == 256 { 0 } else { (mask % 3) as u8 }, unit: false, style: bit });
+          }
           if [8192u64, 16384, 24576, 1 << 20, 1 << 32, 1 << 33].contains(&p) {
-            cases.push(Case { mask, p, private: pa & 1 == 1, announce: pa & 2 == 2, tier: false, input: (mask % 3) as u8, unit: true });
+            cases.push(Case { mask, p, private: pa & 1 == 1, announce: pa & 2 == 2, tier: false, input: (mask % 3) as u8, unit: true, style: 0 });
           }
         }
       }
